@@ -51,7 +51,9 @@ def fsOf (j : Json) : FS :=
   let l : List (Str × Node) := match j.getObjVal? "files" with
     | .ok (.obj o) => o.toList.map fun (k, v) => (k.toList, nodeOfJson v)
     | _ => []
-  fun p => lookup p l
+  { node := fun p => lookup p l,
+    -- the registry of the harness's child processes: only the private format `c16kv`
+    formats := fun n => if n = "c16kv".toList then some kvParser else none }
 
 def envFileOfJson (j : Json) : EnvFile :=
   { path := (getStr j "path").toList, required := getBool j "required", format := (getStr j "format").toList }
@@ -143,10 +145,21 @@ def specOp : Handler := fun args =>
   let wf := (efl ++ lfl).all fun f => f.lines.all fun l => match l with
     | .assign _ v => CV.Template.WF v
     | _ => true
+  -- the layers as a file system with synthetic paths e0, e1, … / l0, l1, …: the specification of *which file fails*
+  let idx (c : Char) (n : Nat) : Str := c :: (Nat.repr n).toList
+  let nodes : List (Str × Node) :=
+    (efl.zipIdx.filterMap fun (f, i) => if f.present then some (idx 'e' i, Node.file f.lines) else none) ++
+    (lfl.zipIdx.filterMap fun (f, i) => if f.present then some (idx 'l' i, Node.file f.lines) else none)
+  let sfs : FS := { node := fun p => lookup p nodes }
+  let efs : List EnvFile := efl.zipIdx.map fun (f, i) => { path := idx 'e' i, required := f.required, format := [] }
+  let lps : List Str := lfl.zipIdx.map fun (_, i) => idx 'l' i
   if !wf then Json.mkObj [("wf", Json.bool false)]
-  else if missingRequired efl then Json.mkObj [("err", "notFound")]
-  else if lfl.any (fun f => !f.present) then Json.mkObj [("err", "notFound")]
-  else
+  else match envFailureFrom penv sfs [] efs with
+  | some e => Json.mkObj [("err", Json.str (errStr e))]
+  | none =>
+  match labelFailureFrom sfs [] lps with
+  | some e => Json.mkObj [("err", Json.str (errStr e))]
+  | none =>
     let files := presentFiles efl
     let lfiles := presentFiles lfl
     Json.mkObj [
